@@ -44,12 +44,14 @@ CLAIMED: dict[str, tuple[str, str, str, str, str]] = {
     ),
     "C23": (
         "other",
-        "Decides the save/restore pairing of mock_builtins (keys written == keys restored/deleted, old values captured before "
-        "the update, restore in finally around the yield), that no other tracing-time function writes user namespaces, and "
-        "that the traced function runs inside mock_builtins of the same function object.",
+        "Decides that mock_builtins restores the user's namespace exactly: the generator is split at its yield and its pieces are "
+        "interpreted on all 2^3 user namespaces over {float,int,len} (plus an unrelated binding) for the normal and the "
+        "exceptional exit -- every mocked name is shadowed at the yield, afterwards keys and values equal the initial ones; the "
+        "restore is in a finally around the yield; no other tracing-time function writes user namespaces; the traced function "
+        "runs inside mock_builtins of the same function object.",
         "Trusted: ast parser; namespace writes are recognised syntactically through __globals__/f_globals/f_locals/__dict__ "
         "attributes (subscript stores, del, update/pop/setdefault/clear).",
-        "save/restore pairing on the CFG shape + who-may-write lint over all functions",
+        "abstract interpretation of the save/install/restore pieces on all small namespaces + finally-pairing on the CFG + who-may-write lint over all functions",
         "DESIGN §5 C23",
     ),
     "C24": (
@@ -132,7 +134,7 @@ CLAIMED: dict[str, tuple[str, str, str, str, str]] = {
         "include_unreachable modes, extracted by abstractly interpreting one loop iteration), gen/kill truth tables of both "
         "transfer functions, meet/join/eq shapes, extremal start values, change detection and initial queueing.",
         "Trusted: the theorem itself; ast parser; gsa interpreter fragments (outside them UNDECIDED). No CFG is sampled.",
-        "dataflow-framework obligations: abstract interpretation of one worklist iteration + set-algebra truth tables",
+        "dataflow-framework obligations: abstract interpretation of one worklist iteration and of the join functions on all small inputs + set-algebra truth tables",
         "DESIGN §5 C09",
     ),
     "C10": (
@@ -267,7 +269,7 @@ CLAIMED: dict[str, tuple[str, str, str, str, str]] = {
         "field order. The order edges of the emitted HUGR and behaviour after a panic are not decided.",
         "Trusted: ast parser, gsa/absint/pyeval.py with recording hooks for the block/branch primitives (new_bb, link, build, "
         "_tmp_assign); ExprBuilder.build is modelled as building every operand inside the expression once, in place.",
-        "abstract interpretation of desugaring code over symbolic operands (event order check) + membership/must-call rules",
+        "abstract interpretation of desugaring code over symbolic operands, then simulation of the recorded block graph for every truth assignment of the branch predicates against Python's evaluation order + membership/must-call rules",
         "DESIGN §5 C05",
     ),
     "C01": (
